@@ -6,6 +6,7 @@ import tempfile
 from mc.core import Res
 from mc import keys as K
 from mc import recips as R
+from mc import adapt as A
 from mc import sigscen as S
 from refpgp import msg as rmsg, wire, sig as rsig, keys as rkeys, armor as rarmor
 
@@ -89,13 +90,15 @@ class Prop(object):
             probs.append('content %r... vs %r...' % (a.message[:20], b.message[:20]))
         if a.filename != b.filename:
             probs.append('file name %r vs %r' % (a.filename, b.filename))
-        if a.is_compressed != b.is_compressed or a._compression != b._compression:
+        # format, time and compression algorithm have no documented accessor: they are read from the exports by the reference parser
+        va, vb = A.msg_view(a), A.msg_view(b)
+        if a.is_compressed != b.is_compressed or va['compression'] != vb['compression']:
             probs.append('compression')
         if a.is_sensitive != b.is_sensitive:
             probs.append('sensitive marker')
-        if a._message.format != b._message.format:
-            probs.append('format %r vs %r' % (a._message.format, b._message.format))
-        if int(a._message.mtime.timestamp()) != int(b._message.mtime.timestamp()):
+        if va['format'] != vb['format']:
+            probs.append('format %r vs %r' % (va['format'], vb['format']))
+        if va['time'] != vb['time']:
             probs.append('time')
         if sorted(bytes(s) for s in a.signatures) != sorted(bytes(s) for s in b.signatures):
             probs.append('signature multiset')
@@ -362,12 +365,13 @@ class Prop(object):
                 blob = G.binary(f)
                 rec = rmsg.recognise(blob)
                 m = pgpy.PGPMessage.from_blob(G.read(f))
-                if bytes(m._message._contents) != rec['literal']['data']:
+                mv = A.msg_view(m)
+                if mv['data'] != rec['literal']['data']:
                     probs.append('content octets differ from the independent parser\'s')
-                if m.filename.encode('utf-8') != rec['literal']['name'] or int(m._message.mtime.timestamp()) != rec['literal']['time'] or m._message.format != rec['literal']['format']:
+                if m.filename.encode('utf-8') != rec['literal']['name'] or mv['time'] != rec['literal']['time'] or mv['format'] != rec['literal']['format']:
                     probs.append('literal metadata differs')
-                if int(m._compression) != (rec['compression'] or 0):
-                    probs.append('compression %r vs %r' % (m._compression, rec['compression']))
+                if mv['compression'] != (rec['compression'] or 0):
+                    probs.append('compression %r vs %r' % (mv['compression'], rec['compression']))
                 if sorted(wire.read_packet(bytes(s))['body'] for s in m.signatures) != sorted(rec['sigs']):
                     probs.append('signature multiset differs')
                 for s in m.signatures:
@@ -427,8 +431,8 @@ class Prop(object):
                             rmsg.recognise(blob)      # sanity of the generator
                             m = pgpy.PGPMessage.from_blob(blob)
                             r.transitions += 1
-                            raw_content = bytes(m._message._contents)
-                            if raw_content != data:
+                            mv = A.msg_view(m)
+                            if mv['data'] != data or (isinstance(m.message, (bytes, bytearray)) and bytes(m.message) != data):
                                 probs.append('content octets differ')
                             try:
                                 want_name = name.decode('utf-8')
@@ -436,12 +440,12 @@ class Prop(object):
                                 want_name = None
                             if m.filename != want_name:
                                 probs.append('file name %r, expected %r' % (m.filename, want_name))
-                            if int(m._message.mtime.timestamp()) != t:
-                                probs.append('time %r' % (m._message.mtime,))
-                            if m._message.format != fmt:
-                                probs.append('format %r' % (m._message.format,))
-                            if int(m._compression) != comp:
-                                probs.append('compression %r' % (m._compression,))
+                            if mv['time'] != t:
+                                probs.append('time %r' % (mv['time'],))
+                            if mv['format'] != fmt:
+                                probs.append('format %r' % (mv['format'],))
+                            if mv['compression'] != comp:
+                                probs.append('compression %r' % (mv['compression'],))
                             if sorted(wire.read_packet(bytes(s))['body'] for s in m.signatures) != sorted(sigs):
                                 probs.append('signature multiset differs')
                             for j in range(nsig):
